@@ -207,3 +207,107 @@ def run(chk, F, tier):
                 some_only = False
     chk.check(some_only, "R21c", "severity-always-some", "get_severity can return None", gs.loc())
     chk.explanation = "t! call sites recovered from MIR (key constant + replace_patterns name array) checked against the locale YAML files; loop-path analysis of SyntaxErrorChecker."
+
+    # ---- R21d: line/column pairs of a published range come from the document's own line table ---------------------------
+    chk.rule("R21d", "DiagnosticContext::translate_range takes every line and column of the LSP range from LuaDocument::get_line_col "
+                     "(no arithmetic mixes byte lengths into character columns)")
+    tr = F.bodies.get(CA + "::diagnostic::checker::DiagnosticContext::translate_range")
+    if tr is None:
+        raise RuleBroken("translate_range not found")
+    comps = []
+    for blk in tr.blocks:
+        for st in blk[1]:
+            if st[0] == "a" and st[2][0] == "agg" and st[2][1] == "adt" and (st[2][2] or "").endswith("::Position") and len(st[2][4]) == 2:
+                comps += [(op, st[3] if len(st) > 3 else None) for op in st[2][4]]
+    chk.floor("Position components built by translate_range", len(comps), 4)
+
+    def comp_sources(b, op, depth=0, seen=None):
+        """call names / 'arith' that the operand's value is computed from (casts and tuple payloads looked through)"""
+        seen = seen if seen is not None else set()
+        out = set()
+        l = dataflow.operand_local(op)
+        if l is None:
+            return {"const"}
+        todo = [l]
+        while todo:
+            x = todo.pop()
+            if x in seen:
+                continue
+            seen.add(x)
+            for r in dataflow.roots(b, x):
+                if r[0] == "call":
+                    c = b.blocks[r[1]][2][1]
+                    n = name(c)
+                    if n.endswith(("Try>::branch", "Into<U>>::into", "From<T>>::from")) and c["a"]:
+                        la = dataflow.operand_local(c["a"][0])
+                        if la is not None:
+                            todo.append(la)
+                        continue
+                    out.add(n.split("::")[-1])
+                elif r[0] == "place":
+                    todo.append(r[1])
+                elif r[0] == "other":
+                    rv = b.blocks[r[1]][1][r[2]][2]
+                    if rv[0] == "cast":
+                        for y in rv[1:]:
+                            if isinstance(y, list) and y and y[0] in ("c", "m"):
+                                todo.append(y[1][0])
+                    else:
+                        out.add("arith:" + str(rv[0]) + (":" + str(rv[1]) if rv[0] in ("bin", "un") else ""))
+                elif r[0] == "const":
+                    out.add("const")
+                elif r[0] == "arg":
+                    out.add("arg")
+                else:
+                    out.add(str(r[0]))
+        return out
+
+    for i, (op, line) in enumerate(comps):
+        src = comp_sources(tr, op)
+        chk.check(src == {"get_line_col"}, "R21d", "position-component#%d" % (i + 1),
+                  "a line/character of the range published for a diagnostic is computed from %s instead of LuaDocument::get_line_col alone: "
+                  "columns are counted in characters, byte offsets/lengths diverge from them on non-ASCII lines and the range leaves the document"
+                  % sorted(src), tr.loc(line), witness={"sources": sorted(src)},
+                  sample={"rule": "R21d", "component": i + 1, "verdict": "from get_line_col"})
+
+    # ---- R21e: the parse errors handed to the syntax-error checker are all of the tree's errors ------------------------------
+    chk.rule("R21e", "Vfs::get_file_parse_error returns None only when the tree is missing or LuaSyntaxTree::get_errors() is empty, and "
+                     "otherwise returns that whole list")
+    gp = F.bodies.get(CA + "::vfs::Vfs::get_file_parse_error")
+    if gp is None:
+        raise RuleBroken("Vfs::get_file_parse_error not found")
+    nsw = 0
+    for bi, blk in enumerate(gp.blocks):
+        t = blk[2]
+        if blk[0] or t[0] != "sw":
+            continue
+        nsw += 1
+        l = t[1][1][0] if t[1][0] in ("c", "m") else None
+        src = set()
+        if l is not None:
+            for st in blk[1]:
+                if st[0] == "a" and st[1] == [l] and st[2][0] == "disc":
+                    l = st[2][1][0]
+            src = comp_sources(gp, ["c", [l]])
+        okset = {"get", "is_empty", "branch"}
+        detail = set()
+        for s_ in src:
+            if s_ == "is_empty":
+                # is_empty of what?  must be the get_errors() slice
+                for bb2, c2 in gp.calls():
+                    if name(c2).endswith("::is_empty") and c2["a"]:
+                        detail |= comp_sources(gp, c2["a"][0])
+        chk.check(src <= okset and detail <= {"get_errors"}, "R21e", "branch#%d" % nsw,
+                  "get_file_parse_error branches on %s: a file whose errors do not satisfy that test (for instance only doc-comment errors when the "
+                  "test is has_syntax_errors) loses all of its syntax-error diagnostics" % sorted(src | detail), gp.loc(t[-1] if isinstance(t[-1], int) else None),
+                  witness={"condition_sources": sorted(src), "is_empty_of": sorted(detail)},
+                  sample={"rule": "R21e", "branch": nsw, "verdict": "tree lookup / get_errors().is_empty()"})
+    chk.floor("branches in get_file_parse_error", nsw, 2)
+    rets = []
+    for blk in gp.blocks:
+        for st in blk[1]:
+            if st[0] == "a" and st[1] == [0] and st[2][0] == "agg" and st[2][3] == "Some":
+                rets.append(comp_sources(gp, st[2][4][0]))
+    chk.check(bool(rets) and all(r == {"to_vec"} or r == {"get_errors"} or r <= {"to_vec", "get_errors", "to_owned", "clone"} for r in rets), "R21e", "returns-all-errors",
+              "get_file_parse_error's Some(..) value is not the whole get_errors() list (%s)" % [sorted(r) for r in rets], gp.loc(),
+              sample={"rule": "R21e", "verdict": "Some(get_errors().to_vec())"})
